@@ -70,6 +70,22 @@ func rowsForValue(a *An, vi visitIndex, ctx *Ctx, v ssa.Value) ([]Row, error) {
 			} else if kk, ok := ctx.constUint(x.X); ok {
 				k, other = kk, x.Y
 			} else {
+				vis := vi[ctx][x]
+				if vis != nil {
+					if trows, isT, err := expandTableRows(a, ctx, x, vis.Local, a.P.instrPos(x), x); isT {
+						if err != nil {
+							return err
+						}
+						rows = append(rows, trows...)
+						// the other operand is the running accumulator
+						for _, o := range []ssa.Value{x.X, x.Y} {
+							if _, _, isElem := tableElem(a.P, ctx.path(o)); !isElem {
+								return rec(o)
+							}
+						}
+						return nil
+					}
+				}
 				return fmt.Errorf("accumulator combined with a non-constant at %s: %s", a.P.instrPos(x), x)
 			}
 			vis := vi[ctx][x]
@@ -125,6 +141,18 @@ func rowsForField(a *An, vi visitIndex, ctx *Ctx, al *ssa.Alloc, field string) (
 				}
 				b, ok := val.(*ssa.BinOp)
 				if !ok {
+					// the accumulated value may be computed by a pure helper (e.Op = opsFromMask(mask)) or held in a local
+					if rv, rc := ctx.resolve(val); rv != val || rc != ctx {
+						switch rv.(type) {
+						case *ssa.Phi, *ssa.BinOp:
+							vrows, err := rowsForValue(a, vi, rc, rv)
+							if err != nil {
+								return nil, err
+							}
+							rows = append(rows, vrows...)
+							continue
+						}
+					}
 					return nil, fmt.Errorf("field %s is assigned a non-tabular value at %s: %s", field, a.P.instrPos(st), st.Val)
 				}
 				var k uint64
@@ -134,36 +162,12 @@ func rowsForField(a *An, vi visitIndex, ctx *Ctx, al *ssa.Alloc, field string) (
 				} else if kk, ok := ctx.constUint(b.X); ok {
 					k, other = kk, b.Y
 				} else {
-					// data-driven form: |= row.value under input & row.flag != 0, for a constant package table
-					expanded := false
-					for _, cand := range [][2]ssa.Value{{b.Y, b.X}, {b.X, b.Y}} {
-						g, vf, isT := tableElem(a.P, ctx.path(cand[0]))
-						if !isT || b.Op != token.OR {
-							continue
+					// data-driven form: |= row.value under a test of the input against row.flag, for a constant package table
+					if trows, isT, err := expandTableRows(a, ctx, b, vis.Local, a.P.instrPos(st), st); isT {
+						if err != nil {
+							return nil, err
 						}
-						tab, okT := staticTable(a.P, g)
-						subj, ff, okG := tableGuard(a.P, vis.Local, g)
-						if !okT || !okG {
-							continue
-						}
-						for _, row := range tab {
-							kv, ok1 := constU(row[vf])
-							fv, ok2 := constU(row[ff])
-							if !ok1 || !ok2 {
-								return nil, fmt.Errorf("table %s has a non-integer row", g.Name())
-							}
-							at := &Atom{Subj: subj, Bits: fv}
-							if popcount(fv) == 1 {
-								at.Kind = AkBit
-							} else {
-								at.Kind = AkAny
-							}
-							rows = append(rows, Row{K: kv, Kind: "or", Cond: DNF{Conj{at.ID(): Lit{A: at}}}, Pos: a.P.instrPos(st) + " (table " + g.Name() + ")", In: st})
-						}
-						expanded = true
-						break
-					}
-					if expanded {
+						rows = append(rows, trows...)
 						continue
 					}
 					return nil, fmt.Errorf("field %s combined with a non-constant at %s", field, a.P.instrPos(st))
